@@ -164,17 +164,53 @@ fn walk(v: &Value, cm: &CodeMap, doc: &RefDoc, idx: usize, stats: &mut (bool, bo
 pub fn property(text: &str) -> Result<(usize, bool), String> {
 	let chars: Vec<char> = text.chars().collect();
 	let r = ref_parse(&chars, true);
-	if !r.accepted_strict() {
+	if r.syntax_err.is_some() {
 		return Ok((0, false));
 	}
+	let strict_ok = r.events.is_empty();
 	let doc = r.doc.unwrap();
-	let (v, cm) = Value::parse_str(text).map_err(|e| format!("parse_str rejected a valid document: {e:?}"))?;
+	let mut result = (0, false);
+	// three ways to obtain (value, code map): strict parse_str; parse over DecodedChar with UTF-16 lengths;
+	// flexible options when the document has unpaired/lone surrogate escapes
+	for mode in 0..3 {
+		let parsed = match mode {
+			0 if strict_ok => Some((Value::parse_str(text), crate::refjson::utf8_offsets(&chars))),
+			1 if strict_ok => {
+				let mut o = Vec::with_capacity(chars.len() + 1);
+				let mut p = 0;
+				for c in &chars {
+					o.push(p);
+					p += c.len_utf16();
+				}
+				o.push(p);
+				Some((Value::parse_infallible(chars.iter().map(|c| decoded_char::DecodedChar::from_utf16(*c))), o))
+			}
+			2 if !strict_ok => Some((Value::parse_str_with(text, json_syntax::parse::Options::flexible()), crate::refjson::utf8_offsets(&chars))),
+			_ => None,
+		};
+		if let Some((res, off)) = parsed {
+			let (v, cm) = res.map_err(|e| format!("parse (mode {mode}) rejected a document the reference accepts: {e:?}"))?;
+			// the index handed out for an element must be the one whose span is that element's source text
+			for (i, f) in doc.frags.iter().enumerate() {
+				match cm.get(i) {
+					Some(e) if e.span.start() == off[f.start] && e.span.end() == off[f.end] => {}
+					other => return Err(format!("mode {mode}: code-map entry {i} is {:?}, the fragment's source text is {}..{}", other.map(|e| (e.span.start(), e.span.end())), off[f.start], off[f.end])),
+				}
+			}
+			result = navigate(&v, &cm, &doc).map_err(|m| format!("mode {mode} (0 = parse_str, 1 = parse over UTF-16 lengths, 2 = flexible options): {m}"))?;
+		}
+	}
+	Ok(result)
+}
+
+fn navigate(v: &Value, cm: &CodeMap, doc: &RefDoc) -> Result<(usize, bool), String> {
+	let (v, cm) = (v.clone(), cm.clone());
 	let n = doc.frags.len();
 	if cm.len() != n {
 		return Err(format!("code map has {} entries, the document has {n} fragments (C05)", cm.len()));
 	}
 	let mut stats = (false, false);
-	walk(&v, &cm, &doc, 0, &mut stats)?;
+	walk(&v, &cm, doc, 0, &mut stats)?;
 	// get_fragment(i) == i-th fragment of the traversal; past the end: remaining distance
 	let trav: Vec<(u8, usize)> = v.traverse().map(|(_, f)| frag_id(f)).collect();
 	if trav.len() != n {
@@ -227,6 +263,37 @@ pub fn property(text: &str) -> Result<(usize, bool), String> {
 		1
 	};
 	Ok((class, stats.1 || (stats.0 && doc.value.has_duplicate_keys())))
+}
+
+/// Rendered tree with surrogate escapes injected after the opening quote, or (at_end) before the closing quote, of some strings.
+fn lenient_text(v: &RefValue, ch: &[u8], inj: &[(u16, String)], at_end: bool) -> String {
+	let text = gen::render_doc(v, ch, gen::RenderCfg::FREE);
+	if !at_end {
+		return super::c12::inject(&text, inj);
+	}
+	// inject before the closing quote of string literals
+	let chars: Vec<char> = text.chars().collect();
+	let r = ref_parse(&chars, true);
+	let doc = match r.doc {
+		Some(d) => d,
+		None => return text,
+	};
+	let ends: Vec<usize> = doc.frags.iter().filter(|f| chars[f.start] == '"' && f.kind != FragKind::Entry).map(|f| f.end - 1).collect();
+	if ends.is_empty() {
+		return text;
+	}
+	let mut inserts: Vec<(usize, &str)> = inj.iter().map(|(sel, s)| (ends[gen::map_index(*sel, ends.len())], s.as_str())).collect();
+	inserts.sort_by_key(|x| x.0);
+	let mut out = String::new();
+	let mut k = 0;
+	for (i, c) in chars.iter().enumerate() {
+		while k < inserts.len() && inserts[k].0 == i {
+			out.push_str(inserts[k].1);
+			k += 1;
+		}
+		out.push(*c);
+	}
+	out
 }
 
 fn checker(acc: &mut Acc, input: &[u8]) {
@@ -512,6 +579,27 @@ pub fn run(ctx: &mut Ctx) {
 				}
 			},
 			|(v, ch)| pf::case_json(gen::render_doc(v, ch, gen::RenderCfg::FREE).as_bytes(), &json!({})),
+		);
+		ctx.add(fam);
+	}
+	if ctx.wants("X_lenient_documents") {
+		let n = ctx.pick(40_000, 600_000);
+		let fam = Fam::new("X_lenient_documents", "proptest: rendered trees with sequences of unpaired/lone surrogate escapes injected into string literals (values and keys, also right before the closing quote), parsed with the flexible options: the code map handed to the navigation API must carry the source spans, and every mapped iterator / lookup / get_fragment must agree with the reference fragment table; non-trivial = the document is not strict-valid and has a container", false);
+		let fam = run_proptest(
+			ctx,
+			fam,
+			n,
+			|| (gen::arb_container_value(gen::ValueCfg { depth: 3, width: 4, dup_keys: true, big_numbers: false }), gen::arb_choices(), proptest::collection::vec((any::<u16>(), super::c12::arb_elements()), 1..=3), any::<bool>()),
+			|(v, ch, inj, at_end)| {
+				let text = lenient_text(v, ch, inj, *at_end);
+				let chars: Vec<char> = text.chars().collect();
+				let strict = ref_parse(&chars, false).accepted_strict();
+				match property(&text) {
+					Ok((_, _)) => Outcome::ok(!strict, vec![if strict { "strict_valid" } else { "needs_lenient_options" }]),
+					Err(m) => Outcome::fail(m),
+				}
+			},
+			|(v, ch, inj, at_end)| pf::case_json(lenient_text(v, ch, inj, *at_end).as_bytes(), &json!({})),
 		);
 		ctx.add(fam);
 	}
